@@ -150,6 +150,7 @@ var clauseKeywords = map[string]bool{
 // ghostWitnessDecl: witness arrays declared by `range n ghost` clauses (name -> key type, value type; string or int)
 var ghostWitnessDecl = map[string][2]string{}
 
+var closureNameRE = regexp.MustCompile(`(\w)\$(\d)`)
 var externMethodRE = regexp.MustCompile(`^([\w./-]+)\.\((\*?\w+)\)\.(\w+)(\(.*)$`)
 
 func firstWord(s string) string {
@@ -412,6 +413,8 @@ func exprString(e ast.Expr) string {
 
 func parseFuncLine(kw, rest, pkgPath string) (*Contract, error) {
 	c := &Contract{Pkg: pkgPath, Loops: map[int]*LoopSpec{}, Ranges: map[int]*RangeSpec{}}
+	// function literals are named as go/ssa names them: outer$1, outer$1$2, ...
+	rest = closureNameRE.ReplaceAllString(rest, "${1}_CLOSURE_${2}")
 	line := "func " + rest
 	if kw == "interface" {
 		// interface T.M(params) (results)
@@ -432,7 +435,7 @@ func parseFuncLine(kw, rest, pkgPath string) (*Contract, error) {
 	if !ok {
 		return nil, fmt.Errorf("expected func")
 	}
-	c.Name = fd.Name.Name
+	c.Name = strings.ReplaceAll(fd.Name.Name, "_CLOSURE_", "$")
 	c.FuncType = fd.Type
 	if fd.Recv != nil && len(fd.Recv.List) == 1 {
 		r := fd.Recv.List[0]
